@@ -572,7 +572,9 @@ def run(ctx):
         "(private fields; every &mut hand-out marks stale on all paths), (S2) only the two refresh helpers and one reasoned "
         "exception clear it and only after running every feature's refresh, (K4-K8) per FeatureState impl the TypeId-keyed "
         "slots written per route/insertion are also refreshed where stale bits get cleared, (T1) typestate: no hand-over "
-        "function returns a solution with a possibly stale route, (I1) insert-then-accept pairing in the evaluator.")
+        "function returns a solution with a possibly stale route, (I1) insert-then-accept pairing in the evaluator, (K9) a slot that a "
+        "refresh sets on some paths only is removed on the others — must-write over the accessor wrappers, the compatibility tag's presence law evaluated over "
+        "new x current in {None,Some}^2 — or its guard is constant per route (reasoned table).")
     ctx.not_decided = ("that incremental updates compute the same VALUES as recomputation (e.g. the documented approximation in "
                        "HierarchicalAreasState::accept_insertion); solution-level aggregates between two insertions.")
     ctx.assumptions += [
